@@ -67,6 +67,16 @@ def step (σ : St) (op obs : List String) : St × List Msg :=
               s!"a snapshot taken while a silence was edited ({mode}) loads as {loaded} (raced silence, replacement, active, stored): neither the store before the edit ({pre}) nor after it ({post})"]
          else [])
         ++ shape ++ [.tag (if loaded = pre then "snaprace:before-edit" else if loaded = post then "snaprace:after-edit" else "snaprace:mixed")])
+  | ["twomutes", _], [first, second, both, after, active, alert] =>
+    -- two overlapping calls for one alert, a matching silence created between them, the older silence expired afterwards:
+    -- an active silence matched the alert at every instant, so all four answers are "muted" (mutes_interleaved_bracket for
+    -- the overlapping ones, mutesI_next_call_exact for the settled ones); the last one is also checked against the dump
+    (σ, (if first = "1" ∧ second = "1" then [] else
+          [Msg.propfail "mutes_interleaved_bracket" "verdict" s!"overlapping Mutes calls for {alert} answer {first} / {second} although an active silence matched it throughout"])
+        ++ (if both = "1" then [] else
+          [Msg.propfail "mutesI_next_call_exact" "concurrent-set-lost" s!"after two overlapping Mutes calls returned, Mutes answers false for {alert} although two active silences match it"])
+        ++ verdict "mutesI_next_call_exact" after active alert
+        ++ [.tag "twomutes"])
   | ["quiet", _], [after, active, alert] =>
     (σ, verdict "mutes_eq_bruteforce" after active alert ++ [.tag "quiet"])
   | _, _ => (σ, [.diff "parse" "?" (" ".intercalate op)])
